@@ -147,6 +147,12 @@ macro_rules! Header {
                     _ => None
                 }
             }
+            /// for names written neither as registered nor in lower case: `CONTENT-LENGTH`, `Content-length`
+            pub(crate) fn from_bytes_ignore_case(bytes: &[u8]) -> Option<Self> {
+                (0..N_CLIENT_HEADERS)
+                    .map(|i| unsafe {std::mem::transmute::<_, Header>(i as u8)})
+                    .find(|h| h.as_str().as_bytes().eq_ignore_ascii_case(bytes))
+            }
         }
 
         impl<T: AsRef<[u8]>> PartialEq<T> for Header {
